@@ -804,13 +804,23 @@ impl MachineState {
     fn try_from_inner_list(
         &mut self,
         mut result: Vec<HeapCellValue>,
-        mut l: usize,
+        l: usize,
         stub_gen: impl Fn() -> MachineStub,
         a1: HeapCellValue,
     ) -> Result<Vec<HeapCellValue>, MachineStub> {
         result.push(self.heap[l]);
-        l += 1;
+        self.try_from_list_tail(result, l + 1, stub_gen, a1)
+    }
 
+    // collects the elements of the rest of a list, starting at its tail
+    // cell: cons cells and packed strings may alternate at any tail.
+    fn try_from_list_tail(
+        &mut self,
+        mut result: Vec<HeapCellValue>,
+        mut l: usize,
+        stub_gen: impl Fn() -> MachineStub,
+        a1: HeapCellValue,
+    ) -> Result<Vec<HeapCellValue>, MachineStub> {
         loop {
             let value = self.store(self.deref(self.heap[l]));
 
@@ -820,7 +830,15 @@ impl MachineState {
                     l = hcp + 1;
                 }
                 (HeapCellValueTag::PStrLoc, pstr_loc) => {
-                    return self.try_from_partial_string(result, pstr_loc, stub_gen, a1);
+                    match self.push_pstr_chars(&mut result, pstr_loc) {
+                        Some(tail_loc) => {
+                            l = tail_loc;
+                        }
+                        None => {
+                            let err = self.type_error(ValidType::List, a1);
+                            return Err(self.error_form(err, stub_gen()));
+                        }
+                    }
                 }
                 (HeapCellValueTag::Str, s) => {
                     let (name, arity) = cell_as_atom_cell!(self.heap[s])
@@ -856,13 +874,13 @@ impl MachineState {
         Ok(result)
     }
 
-    fn try_from_partial_string(
+    // pushes the characters of the packed string at pstr_loc and returns
+    // the location of the cell that follows them (None: cyclic string).
+    fn push_pstr_chars(
         &mut self,
-        mut chars: Vec<HeapCellValue>,
+        chars: &mut Vec<HeapCellValue>,
         pstr_loc: usize,
-        stub_gen: impl Fn() -> MachineStub,
-        a1: HeapCellValue,
-    ) -> Result<Vec<HeapCellValue>, MachineStub> {
+    ) -> Option<usize> {
         self.heap[0] = pstr_loc_as_cell!(pstr_loc);
         let mut heap_pstr_iter = HeapPStrIter::new(&self.heap, 0);
 
@@ -879,14 +897,29 @@ impl MachineState {
             }
         }
 
-        let end_cell = heap_pstr_iter.heap[heap_pstr_iter.focus()];
-
-        if heap_pstr_iter.is_cyclic() || end_cell != empty_list_as_cell!() {
-            let err = self.type_error(ValidType::List, a1);
-            return Err(self.error_form(err, stub_gen()));
+        if heap_pstr_iter.is_cyclic() {
+            None
+        } else {
+            Some(heap_pstr_iter.focus())
         }
+    }
 
-        Ok(chars)
+    fn try_from_partial_string(
+        &mut self,
+        mut chars: Vec<HeapCellValue>,
+        pstr_loc: usize,
+        stub_gen: impl Fn() -> MachineStub,
+        a1: HeapCellValue,
+    ) -> Result<Vec<HeapCellValue>, MachineStub> {
+        // what follows the characters is the rest of the list, whatever
+        // its spelling.
+        match self.push_pstr_chars(&mut chars, pstr_loc) {
+            Some(tail_loc) => self.try_from_list_tail(chars, tail_loc, stub_gen, a1),
+            None => {
+                let err = self.type_error(ValidType::List, a1);
+                Err(self.error_form(err, stub_gen()))
+            }
+        }
     }
 
     // returns true on failure.
